@@ -340,7 +340,7 @@ Definition outcome_code (o : outcome) : Z :=
     the same hash from the implementation's observation (checks/C08.py:obs_hash).
     Flattening: outcome code; LIB id, no; LpbNo; confirmsRequired; best id; |Prpsd|, entries
     sorted by producer as (bp, plib id, plib no, by id, by no); |confirms|, elements front to
-    back as (id, no, bp, range, confirmsLeft); |main chain|, ids by height. *)
+    back as (id, no, bp, range, confirmsLeft); |main chain|, and its ids by height after a reorg or veto. *)
 Definition obs_entry := (Z * Z * Z * Z * Z)%type.
 Definition prpsd_obs (p : proposed) : list obs_entry :=
   map (fun kv => (fst kv, b_id (pl_plib (snd kv)), b_no (pl_plib (snd kv)),
@@ -364,10 +364,10 @@ Definition flat_obs (code : Z) (nd : node) : list Z :=
   [code; b_id (ls_lib ls); b_no (ls_lib ls); ls_lpb ls; ls_cr ls; k_id (st_best (nd_st nd))]
   ++ flat_entries (sort_entries (prpsd_obs (ls_prpsd ls)))
   ++ flat_entries (confirms_obs (ls_confirms ls))
-  ++ Z.of_nat (length (nd_main nd)) :: main_ids nd.
-Definition hash_mod := 2305843009213693951.   (* 2^61 - 1 *)
+  ++ Z.of_nat (length (nd_main nd)) :: (if (code =? 6) || (code =? 7) then main_ids nd else []).
+Definition hash_mask := 1152921504606846975.   (* 2^60 - 1 *)
 Definition hash_list (l : list Z) : Z :=
-  fold_left (fun h x => (h * 1000003 + (x + 7) mod hash_mod) mod hash_mod) l 0.
+  fold_left (fun h x => Z.land (Z.shiftl h 5 + h + x + 7) hash_mask) l 5381.
 Definition obs_hash (code : Z) (nd : node) : Z := hash_list (flat_obs code nd).
 
 (** A scripted scenario on one node: deliveries, restarts ("R": the node continues with the
